@@ -30,6 +30,13 @@ var globPatterns = []string{
 // Glob: a glob denotes exactly the matching non-hidden files under the spokfile dir (C05).
 func Glob() {
 	pattern := globPatterns[sym.ParamInt("pattern", 0)]
+	// optionally a second task with a second pattern: what a pattern denotes must not depend on
+	// which other patterns the spokfile contains (a seeded change shared a "seen" set between
+	// patterns, so that overlapping patterns lost matches, DESIGN.md 9.5)
+	patterns := []string{pattern}
+	if k := sym.ParamInt("pattern2", -1); k >= 0 {
+		patterns = append(patterns, globPatterns[k])
+	}
 	npool := sym.ParamInt("pool", len(globPool))
 	setupProject("")
 	defer teardownProject()
@@ -50,7 +57,7 @@ func Glob() {
 		putFile(rel, "x")
 		present = append(present, rel)
 	}
-	sym.Observe("pattern", pattern)
+	sym.Observe("pattern", strings.Join(patterns, " + "))
 	sym.Observe("tree", strings.Join(present, " "))
 
 	// ---- reference: every file or directory of the tree whose relative path matches the
@@ -63,27 +70,19 @@ func Glob() {
 		}
 	}
 	all["spokfile"] = true
-	var want []string
-	for p := range all {
-		ok, err := doublestar.Match(pattern, p)
-		if err != nil {
-			panic(err)
-		}
-		if ok && !strings.HasPrefix(p, ".") {
-			want = append(want, p)
-		}
-	}
-	sort.Strings(want)
 
-	// ---- the real code: a task with the pattern as its glob dependency
+	// ---- the real code: one task per pattern, the pattern as its glob dependency
 	tree := ast.Tree{}
-	tree.Append(ast.Task{
-		Name:         ast.Ident{Name: "t", NodeType: ast.NodeIdent},
-		Docstring:    ast.Comment{NodeType: ast.NodeComment},
-		Dependencies: []ast.Node{ast.String{Text: pattern, NodeType: ast.NodeString}},
-		NodeType:     ast.NodeTask,
-	})
-	var got, again []string
+	names := []string{"t", "u"}
+	for i, pat := range patterns {
+		tree.Append(ast.Task{
+			Name:         ast.Ident{Name: names[i], NodeType: ast.NodeIdent},
+			Docstring:    ast.Comment{NodeType: ast.NodeComment},
+			Dependencies: []ast.Node{ast.String{Text: pat, NodeType: ast.NodeString}},
+			NodeType:     ast.NodeTask,
+		})
+	}
+	expansions := [2]map[string][]string{{}, {}}
 	for round := 0; round < 2; round++ {
 		sf, err := file.New(tree, root, nopLogger{})
 		if err != nil {
@@ -95,46 +94,67 @@ func Glob() {
 			sym.Violation("C05/expansion-failed", "")
 			return
 		}
-		var rels []string
-		for _, abs := range sf.Globs[pattern] {
-			rels = append(rels, strings.TrimPrefix(abs, root+"/"))
-		}
-		sort.Strings(rels)
-		if round == 0 {
-			got = rels
-		} else {
-			again = rels
+		for _, pat := range patterns {
+			var rels []string
+			for _, abs := range sf.Globs[pat] {
+				rels = append(rels, strings.TrimPrefix(abs, root+"/"))
+			}
+			sort.Strings(rels)
+			expansions[round][pat] = rels
 		}
 	}
 	sym.Reach("C05/expanded")
-	sym.Observe("got", strings.Join(got, " "))
-	sym.Observe("want", strings.Join(want, " "))
-	sym.Assert(strings.Join(got, " ") == strings.Join(again, " "), "C05/expansion-not-repeatable")
-	gotSet := map[string]bool{}
-	for _, g := range got {
-		gotSet[g] = true
-	}
-	for _, p := range want {
-		if !gotSet[p] {
-			if anyHiddenSibling(p, present) {
-				sym.Violation("C05/matching-file-omitted-next-to-a-hidden-entry", p)
-			} else {
-				sym.Violation("C05/matching-file-omitted", p)
+	for i, pat := range patterns {
+		// ---- reference: every file or directory of the tree whose relative path matches the
+		// pattern and does not begin with a dot (doublestar.Match is the library's own matcher)
+		var want []string
+		for p := range all {
+			ok, err := doublestar.Match(pat, p)
+			if err != nil {
+				panic(err)
 			}
-			return
+			if ok && !strings.HasPrefix(p, ".") {
+				want = append(want, p)
+			}
 		}
-	}
-	wantSet := map[string]bool{}
-	for _, p := range want {
-		wantSet[p] = true
-	}
-	for _, g := range got {
-		if !wantSet[g] {
-			sym.Violation("C05/non-matching-or-hidden-entry-included", g)
-			return
+		sort.Strings(want)
+		got, again := expansions[0][pat], expansions[1][pat]
+		suffix := ""
+		if i > 0 {
+			suffix = "2"
 		}
+		sym.Observe("got"+suffix, strings.Join(got, " "))
+		sym.Observe("want"+suffix, strings.Join(want, " "))
+		sym.Assert(strings.Join(got, " ") == strings.Join(again, " "), "C05/expansion-not-repeatable")
+		gotSet := map[string]bool{}
+		for _, g := range got {
+			gotSet[g] = true
+		}
+		for _, p := range want {
+			if !gotSet[p] {
+				switch {
+				case anyHiddenSibling(p, present):
+					sym.Violation("C05/matching-file-omitted-next-to-a-hidden-entry", p)
+				case len(patterns) > 1:
+					sym.Violation("C05/matching-file-omitted-when-another-pattern-is-present", p)
+				default:
+					sym.Violation("C05/matching-file-omitted", p)
+				}
+				return
+			}
+		}
+		wantSet := map[string]bool{}
+		for _, p := range want {
+			wantSet[p] = true
+		}
+		for _, g := range got {
+			if !wantSet[g] {
+				sym.Violation("C05/non-matching-or-hidden-entry-included", g)
+				return
+			}
+		}
+		sym.Assert(len(got) == len(want), "C05/duplicate-in-expansion")
 	}
-	sym.Assert(len(got) == len(want), "C05/duplicate-in-expansion")
 }
 
 // anyHiddenSibling reports whether the directory of p also holds an entry whose relative path
